@@ -1,13 +1,13 @@
 SPECIFICATION GenSpec
 CONSTANTS
   Models = {"sphere", "cylinder", "broad_peak", "sphere@hardsphere", "sphere+cylinder"}
-  Focus = "all"
-  WModels = {"sphere", "cylinder", "broad_peak"}
-  QSets = {"q1", "q2", "qxy"}
-  Requests = {"mono", "pd", "pdc", "pd2", "empty", "mode", "mag"}
+  Focus = "wrap"
+  WModels = {"sphere", "cylinder"}
+  QSets = {"q1", "qxy"}
+  Requests = {"mono", "pd", "pd2", "empty"}
   Slots = {"k1", "k2", "k3"}
   Wrappers = {"w1", "w2"}
-  MaxOps = 40
+  MaxOps = 30
   EmptyReq = "empty"
   ModeReq = "mode"
   Variant = "fixed"
